@@ -103,7 +103,9 @@ NLARGS_ATOMS = ['\\flag', '\\flag*', '\\ttl{H}', '\\ttl{H}\\label{a}', '\\ttl', 
                 # ... with blanks / a line end in front of a later argument (the star, the group)
                 '\\lgd{a} *', '\\lgd{a}\n*x', '\\lgd {a}  * ', '\\lgc* {b}', '\\lgc*\n{b}',
                 # blanks / a line end before the closing delimiter of a list or group argument
-                '\\csl{a, b }', '\\csl{a,\n b\n}', '\\csl{ }', '\\csl{a , }', '\\chg{a }', '\\anyd( a )']
+                '\\csl{a, b }', '\\csl{a,\n b\n}', '\\csl{ }', '\\csl{a , }', '\\chg{a }', '\\anyd( a )',
+                # the specials construct with arguments
+                '@@{a}', '@@[o]{b \\alpha}', '@@', '@@ {c}', '~']
 
 
 def nlargs_strings(rng, count):
@@ -117,7 +119,7 @@ def nlargs_context():
     field macros, full-node-list expression, embellishments): such arguments are LatexNodeList objects,
     possibly empty, inside ParsedArguments.argnlist."""
     if not _NLARGS:
-        from pylatexenc.macrospec import LatexContextDb, MacroSpec, EnvironmentSpec, MacroStandardArgsParser
+        from pylatexenc.macrospec import LatexContextDb, MacroSpec, EnvironmentSpec, MacroStandardArgsParser, SpecialsSpec
         from pylatexenc.latexnodes import LatexArgumentSpec
         from pylatexenc.latexnodes import parsers as P
         db = LatexContextDb()
@@ -135,7 +137,9 @@ def nlargs_context():
             MacroSpec('lgc', args_parser=MacroStandardArgsParser('*[{')),
             MacroSpec('lgd', args_parser=MacroStandardArgsParser('{*')),
         ], environments=[EnvironmentSpec('envf', [LatexArgumentSpec(P.LatexOptionalCharsMarkerParser(
-            ['+'], return_full_node_list=True, return_none_instead_of_empty=False))])])
+            ['+'], return_full_node_list=True, return_none_instead_of_empty=False))])],
+            # a specials construct that takes arguments, and plain ones
+            specials=[SpecialsSpec('@@', ['[', '{']), SpecialsSpec('~'), SpecialsSpec('\n\n')])
         db.set_unknown_macro_spec(MacroSpec(''))
         db.set_unknown_environment_spec(EnvironmentSpec(''))
         _NLARGS.append(db)
